@@ -137,7 +137,7 @@ func (p *pools) devReq(create bool) (*lospan.Device, devReqText) {
 		t.app = rTxt(s)
 	}
 	kind := rng.Intn(4) // 0 nil, 1 OTAA, 2 ABP, 3 disabled
-	if !create && rng.Intn(2) == 0 {
+	if !create && rng.Intn(4) != 0 {
 		kind = 0
 	}
 	if kind != 0 {
@@ -351,16 +351,44 @@ func (r *regWorld) apiOp(p *pools) (string, string) {
 		req, t := p.gwReq()
 		var g *lospan.Gateway
 		var err error
+		preOp, preObs := "", ""
+		if !create && rng.Intn(4) != 0 {
+			// an update of a gateway that exists: it is registered first, with every field given, so that the update's omitted
+			// fields (position, altitude, the strict-IP switch) have stored values to keep; a read follows the update
+			req.Eui = p.gw().String()
+			t = rTxt(req.Eui) + t[strings.Index(t, ","):]
+			ip := someIP(rng).String()
+			full := &lospan.Gateway{Eui: req.Eui, Ip: &ip, Latitude: ptr(someEighth(rng, 90)), Longitude: ptr(someEighth(rng, 360)),
+				Altitude: ptr(someEighth(rng, 9000)), StrictIp: ptr(rng.Intn(3) != 0)}
+			ft := strings.Join([]string{rTxt(full.Eui), rTxt(ip), rTxt(parseIP(ip).String()), eighths(*full.Latitude), eighths(*full.Longitude), eighths(*full.Altitude), rB(*full.StrictIp)}, ",")
+			g0, err0 := api.CreateGateway(ctx, full)
+			preOp = "Acg:" + ft + ";"
+			if err0 != nil {
+				preObs = aErr(err0) + "|"
+			} else {
+				preObs = aGw(g0) + "|"
+			}
+		}
 		if create {
 			g, err = api.CreateGateway(ctx, req)
 		} else {
 			g, err = api.UpdateGateway(ctx, req)
 		}
 		name := map[bool]string{true: "Acg:", false: "Aug:"}[create]
-		if err != nil {
-			return name + t, aErr(err)
+		postOp, postObs := "", ""
+		if preOp != "" {
+			g2, err2 := api.GetGateway(ctx, &lospan.GetGatewayRequest{Eui: req.Eui})
+			postOp = ";Agg:" + rTxt(req.Eui)
+			if err2 != nil {
+				postObs = "|" + aErr(err2)
+			} else {
+				postObs = "|" + aGw(g2)
+			}
 		}
-		return name + t, aGw(g)
+		if err != nil {
+			return preOp + name + t + postOp, preObs + aErr(err) + postObs
+		}
+		return preOp + name + t + postOp, preObs + aGw(g) + postObs
 	case k < 23:
 		s := euiText(rng, p.gw())
 		g, err := api.GetGateway(ctx, &lospan.GetGatewayRequest{Eui: s})
